@@ -12,6 +12,7 @@ import (
 
 	"github.com/metrico/cloki-config/config"
 	"github.com/metrico/qryn/reader/logql/logql_parser"
+	"github.com/metrico/qryn/reader/logql/logql_transpiler_v2"
 	"github.com/metrico/qryn/reader/logql/logql_transpiler_v2/clickhouse_planner"
 	"github.com/metrico/qryn/reader/logql/logql_transpiler_v2/shared"
 	"github.com/metrico/qryn/reader/model"
@@ -33,23 +34,25 @@ type Ctx struct {
 }
 
 type Case struct {
-	ID      int      `json:"id"`
-	Query   string   `json:"query"`
-	Ctx     Ctx      `json:"ctx"`
-	Runs    int      `json:"runs"` // number of Process calls on the one plan object (C14)
-	Class   []string `json:"class"`
-	AstCoq  string   `json:"ast_coq,omitempty"`
-	CtxCoq  string   `json:"ctx_coq,omitempty"`
-	AstML   string   `json:"ast_ml,omitempty"`
+	ID     int      `json:"id"`
+	Query  string   `json:"query"`
+	Ctx    Ctx      `json:"ctx"`
+	Runs   int      `json:"runs"` // number of Process calls on the one plan object (C14)
+	Class  []string `json:"class"`
+	AstCoq string   `json:"ast_coq,omitempty"`
+	CtxCoq string   `json:"ctx_coq,omitempty"`
+	AstML  string   `json:"ast_ml,omitempty"`
 	// metric queries (C08): the whole script as a term of model/Logql.v `script`
-	ScriptCoq string `json:"script_coq,omitempty"`
-	ScriptML  string `json:"script_ml,omitempty"`
-	Metric    bool   `json:"metric,omitempty"`
-	Facts     *Facts `json:"facts,omitempty"` // what the parsed script names (for the spec oracles of checks/c08.py)
-	CtxML   string   `json:"ctx_ml,omitempty"`
-	SQL     []string `json:"sql,omitempty"` // one per run
-	Err     string   `json:"err,omitempty"` // parse | ast | plan | process | string
-	ErrText string   `json:"err_text,omitempty"`
+	ScriptCoq string   `json:"script_coq,omitempty"`
+	ScriptML  string   `json:"script_ml,omitempty"`
+	Script1ML string   `json:"script1_ml,omitempty"` // the script handed to the planners, when logql_transpiler_v2.Plan rewrote it (ScriptML = the script as written)
+	Bp        bool     `json:"bp,omitempty"`         // the script has a breakpoint: the reader does not hand it to clickhouse_planner.Plan whole
+	Metric    bool     `json:"metric,omitempty"`
+	Facts     *Facts   `json:"facts,omitempty"` // what the parsed script names (for the spec oracles of checks/c08.py)
+	CtxML     string   `json:"ctx_ml,omitempty"`
+	SQL       []string `json:"sql,omitempty"` // one per run
+	Err       string   `json:"err,omitempty"` // parse | ast | plan | process | string
+	ErrText   string   `json:"err_text,omitempty"`
 	// --mode metricdb (C08): databases the statement is executed over (model/LogqlMetricExec.v)
 	Dbs   []XDB  `json:"dbs,omitempty"`
 	DbsML string `json:"dbs_ml,omitempty"`
@@ -252,7 +255,7 @@ func mkCtx(c Ctx) *shared.PlannerContext {
 }
 
 func run(c *Case) {
-	c.SQL, c.Err, c.ErrText, c.AstCoq, c.AstML, c.ScriptCoq, c.ScriptML = nil, "", "", "", "", "", ""
+	c.SQL, c.Err, c.ErrText, c.AstCoq, c.AstML, c.ScriptCoq, c.ScriptML, c.Script1ML, c.Bp = nil, "", "", "", "", "", "", "", false
 	script, err := logql_parser.Parse(c.Query)
 	if err != nil {
 		c.Err, c.ErrText = "parse", err.Error()
@@ -278,6 +281,20 @@ func run(c *Case) {
 			c.ScriptCoq = dumpScript(coqx.Coq, script)
 			c.ScriptML = dumpScript(coqx.ML, script)
 			c.Facts = scriptFacts(script)
+			// the reader hands the script to the ClickHouse planners through logql_transpiler_v2.Plan, which rewrites the AST
+			// in place before it plans (a vector aggregation without clause is given `by ()`); a script without breakpoint
+			// reaches clickhouse_planner.Plan whole: let the real entry point see this AST and dump what it left.
+			// script_ml = the script as written (C14 plans it with its own harness), script1_ml = the script the planners
+			// get here, when the entry point changed it.
+			if bp, err := logql_transpiler_v2.GetBreakpoint(script); err == nil && bp == logql_transpiler_v2.BreakpointNo {
+				c.Bp = false
+				hx.Catch(func() { logql_transpiler_v2.Plan(script) })
+				if ml := dumpScript(coqx.ML, script); ml != c.ScriptML {
+					c.Script1ML = ml
+				}
+			} else {
+				c.Bp = true
+			}
 			return
 		}
 		c.AstCoq = dumpStrSel(coqx.Coq, script.StrSelector)
